@@ -4,7 +4,9 @@
 # unchanged tree a ~1 s no-op). Serialised with flock so parallel checks do not fight.
 set -euo pipefail
 . "$(dirname "$0")/env.sh"
-REPO=/repo
+REPO=$VERIF_REPO
+MF=$VERIF_MODFILE
+SUM="${MF%.mod}.sum"
 H=$VERIF_ROOT/harness
 exec 9>$VERIF_ROOT/.cache/build.lock
 flock 9
@@ -20,20 +22,20 @@ gen_gomod() {
     awk '/^require \(/{p=1} p{print} /^\)/{if(p){p=0;print ""}}' $REPO/go.mod
     grep '^replace ' $REPO/go.mod || true
     echo "replace github.com/cube2222/octosql => $REPO"
-  } > $H/go.mod.new
-  if ! cmp -s $H/go.mod.new $H/go.mod 2>/dev/null; then mv $H/go.mod.new $H/go.mod; else rm $H/go.mod.new; fi
-  cmp -s $REPO/go.sum $H/go.sum 2>/dev/null || cp $REPO/go.sum $H/go.sum
+  } > $MF.new
+  if ! cmp -s $MF.new $MF 2>/dev/null; then mv $MF.new $MF; else rm $MF.new; fi
+  cmp -s $REPO/go.sum $SUM 2>/dev/null || cp $REPO/go.sum $SUM
 }
 gen_gomod
 for t in "$@"; do
   case "$t" in
     octosql)       (cd $REPO && go build -tags verif -o $VERIF_BIN/octosql .) ;;
     octosql-race)  (cd $REPO && go build -race -tags verif -o $VERIF_BIN/octosql-race .) ;;
-    vharness)      (cd $H && go build -tags verif -o $VERIF_BIN/vharness ./cmd/vharness) ;;
-    vharness-race) (cd $H && go build -race -tags verif -o $VERIF_BIN/vharness-race ./cmd/vharness) ;;
-    vharness-dev:*) p="${t#vharness-dev:}"; (cd $H && go build -tags "verif verif_only verif_only_$p" -o $VERIF_BIN/vharness-$p ./cmd/vharness) ;;
-    vharness-race-dev:*) p="${t#vharness-race-dev:}"; (cd $H && go build -race -tags "verif verif_only verif_only_$p" -o $VERIF_BIN/vharness-race-$p ./cmd/vharness) ;;
-    testplugin)    (cd $H && go build -tags verif -o $VERIF_BIN/testplugin ./cmd/testplugin) ;;
+    vharness)      (cd $H && go build -modfile=$MF -tags verif -o $VERIF_BIN/vharness ./cmd/vharness) ;;
+    vharness-race) (cd $H && go build -modfile=$MF -race -tags verif -o $VERIF_BIN/vharness-race ./cmd/vharness) ;;
+    vharness-dev:*) p="${t#vharness-dev:}"; (cd $H && go build -modfile=$MF -tags "verif verif_only verif_only_$p" -o $VERIF_BIN/vharness-$p ./cmd/vharness) ;;
+    vharness-race-dev:*) p="${t#vharness-race-dev:}"; (cd $H && go build -modfile=$MF -race -tags "verif verif_only verif_only_$p" -o $VERIF_BIN/vharness-race-$p ./cmd/vharness) ;;
+    testplugin)    (cd $H && go build -modfile=$MF -tags verif -o $VERIF_BIN/testplugin ./cmd/testplugin) ;;
     *) echo "unknown target $t" >&2; exit 3 ;;
   esac
 done
